@@ -2,7 +2,9 @@
 
 quick     BFS from the empty circuit: depth 3 on (2,2) with the lean
           alphabet, depth 2 on (2,3) (full alphabet), (2,2,2) and (3,2,2)
-          (lean).  Completes in ~30 s on 16 idle cores.
+          (lean); before that, one-deviation histories of two fixed scripts
+          that build staggered grids on (2,2,2) and (2,3,2,2) with the full
+          alphabet (start from non-initial states).  ~45 s with 16 procs.
 thorough  BFS depth 3 on (2,2), (2,3) (full) and (2,2,2), (3,2,2) (lean);
           deviation-bounded long histories on 5 qubits and on 6 mixed-radix
           qudits (one position of a 26-28 call brick-work script replaced by
@@ -26,11 +28,15 @@ BOUND = {
     'quick': (
         'all call histories of length <= 2 on radixes (2,3) [full alphabet], '
         '(2,2,2) and (3,2,2) [lean alphabet], and of length <= 3 on (2,2) '
-        '[lean alphabet], states merged by canonical key; measured on 16 '
-        'idle cores: ~187,000 transitions / ~52,000 states in ~30 s wall '
-        '(~320 CPU-s) before the C04/C05 repairs, ~150,000 transitions '
-        'after; exhaustive is true only if no time cap was hit'),
+        '[lean alphabet], states merged by canonical key; plus every '
+        'one-position deviation (full alphabet: every region shape, point, '
+        'cycle index) of an 8-call script on (2,2,2) and a 9-call script on '
+        '(2,3,2,2) that build staggered grids, the rest of the script run '
+        'behind the deviation (26,313 transitions); measured with 16 procs: '
+        '~174,000 transitions / ~43,600 states in 42-52 s wall at load ~20; '
+        'exhaustive is true only if no time cap was hit'),
     'thorough': (
+        'the staggered-script deviations of the quick tier; '
         'histories of length <= 3 on (2,2), (2,3) [full] and (2,2,2), '
         '(3,2,2) [lean]; every single-position deviation of a 28-call '
         '5-qubit and a 26-call (2,3,2,2,3,2) brick-work script; two '
@@ -60,6 +66,40 @@ def _bfs_part(rad: tuple, lean: bool, depth: int) -> dict:
             'name': 'x'.join(map(str, rad)) + f'-depth{depth}' + ('-lean' if lean else '')}
 
 
+def _mid_cfg(rad: tuple) -> dict:
+    """Full alphabet (every region shape, every point) on a mid-size circuit."""
+    return {'radixes': list(rad), 'max_ops': 14, 'max_cycles': 10}
+
+
+def staggered_scripts() -> list[dict]:
+    """Two fixed 8-9 call scripts that build a *staggered* grid (gates of
+    arity 1-3, idle cells, 2-qudit gates on non-adjacent qudits, one insert
+    into an idle cell).  Every position of a script is replaced by every
+    call of the full alphabet (one deviation), the rest runs behind it; the
+    position after the last call is 'every call on the reached state'."""
+    def op(rad: tuple, loc: list, k: int) -> list:
+        return [[rad[q] for q in loc], loc, k]
+    a = (2, 2, 2)
+    sa = [
+        ['append', op(a, [0, 1], 1)], ['append', op(a, [2], 2)],
+        ['append', op(a, [2], 3)], ['append', op(a, [2, 1], 4)],
+        ['append', op(a, [0], 5)], ['append', op(a, [0, 2], 6)],
+        ['insert', 1, op(a, [1], 7)], ['append', op(a, [2, 0, 1], 8)],
+    ]
+    b = (2, 3, 2, 2)
+    sb = [
+        ['append', op(b, [1], 1)], ['append', op(b, [0, 2], 2)],
+        ['append', op(b, [3], 3)], ['append', op(b, [1, 2], 4)],
+        ['append', op(b, [3, 1, 0], 5)], ['append', op(b, [2], 6)],
+        ['insert', 1, op(b, [3], 7)], ['append', op(b, [2, 3], 8)],
+        ['append', op(b, [3, 0], 9)],
+    ]
+    return [
+        {'cfg': _mid_cfg(a), 'script': sa, 'name': 'staggered-2x2x2-1deviation'},
+        {'cfg': _mid_cfg(b), 'script': sb, 'name': 'staggered-2x3x2x2-1deviation'},
+    ]
+
+
 def _long_cfg(rad: tuple) -> dict:
     return {'radixes': list(rad), 'long': True, 'max_ops': 80, 'max_cycles': 60}
 
@@ -67,11 +107,14 @@ def _long_cfg(rad: tuple) -> dict:
 def plan(tier: str) -> list[dict]:
     """A list of stages; the parts of one stage share one worker pool."""
     if tier == 'quick':
-        return [{'kind': 'bfs', 'share': 1.0, 'parts': [
+        return [{'kind': 'dev', 'share': 0.35, 'split': 6,
+                 'parts': staggered_scripts()},
+                {'kind': 'bfs', 'share': 1.0, 'parts': [
             _bfs_part((2, 3), False, 2), _bfs_part((2, 2, 2), True, 2),
             _bfs_part((3, 2, 2), True, 2), _bfs_part((2, 2), True, 3)]}]
     a, b = (2, 2, 2, 2, 2), (2, 3, 2, 2, 3, 2)
     return [
+        {'kind': 'dev', 'share': 0.08, 'split': 6, 'parts': staggered_scripts()},
         {'kind': 'bfs', 'share': 0.55, 'parts': [
             _bfs_part((2, 2), False, 3), _bfs_part((2, 3), False, 3),
             _bfs_part((2, 2, 2), True, 3), _bfs_part((3, 2, 2), True, 3)]},
@@ -106,7 +149,8 @@ def run_search(ctx: Ctx, prop: str) -> None:
         else:
             RS = histbfs.deviations(
                 MOD, [(p['cfg'], p['script']) for p in stage['parts']],
-                procs=ctx.procs, deadline=deadline)
+                procs=ctx.procs, deadline=deadline,
+                split=stage.get('split', 1))
         for part, R in zip(stage['parts'], RS):
             states += R.states
             trans += R.transitions
